@@ -761,6 +761,57 @@ func cfgName(prefix string, m []int, level int) string {
 	return prefix + strings.Trim(strings.Replace(fmt.Sprint(m), " ", "-", -1), "[]") + "-" + lv
 }
 
+// ---- raw stream headers: bytes that are not a well-formed frame at all ----
+
+func rawHeaderFamily() vlib.Family {
+	h0 := []uint32{0, 1, 2, 3, 511, 512, 0x7fffffff, 0xfffffffe, 0xffffffff}
+	h1 := []uint32{0, 1, 2, 0x1fffffff, 0xffffffff}
+	lens := []int{0, 3, 4, 7, 8, 12, 16, 24}
+	const entries = 4
+	n := int64(len(h0) * len(h1) * len(lens) * entries)
+	build := func(i int64) ([]byte, int) {
+		e := int(i % entries)
+		i /= entries
+		l := lens[i%int64(len(lens))]
+		i /= int64(len(lens))
+		b := make([]byte, 24)
+		binary.LittleEndian.PutUint32(b[0:], h0[i/int64(len(h1))])
+		binary.LittleEndian.PutUint32(b[4:], h1[i%int64(len(h1))])
+		binary.LittleEndian.PutUint32(b[8:], 1)
+		return b[:l:l], e
+	}
+	return vlib.Family{
+		Name: "raw-stream-headers", N: n,
+		Run: func(i int64, r *vlib.Rec) {
+			b, e := build(i)
+			var m *capnp.Message
+			var err error
+			switch e {
+			case 0:
+				m, err = capnp.Unmarshal(b)
+			case 1:
+				m, err = capnp.UnmarshalPacked(b)
+			case 2:
+				m, err = capnp.NewDecoder(strings.NewReader(string(b))).Decode()
+			case 3:
+				m, err = capnp.NewPackedDecoder(strings.NewReader(string(b))).Decode()
+			}
+			if err != nil {
+				r.Outcome("rejected")
+				return
+			}
+			r.Outcome("accepted")
+			if p, err := m.Root(); err == nil && p.IsValid() {
+				r.NonTrivial()
+			}
+		},
+		Describe: func(i int64) interface{} {
+			b, e := build(i)
+			return map[string]interface{}{"entry": []string{"Unmarshal", "UnmarshalPacked", "Decoder", "PackedDecoder"}[e], "bytes_hex": hex.EncodeToString(b)}
+		},
+	}
+}
+
 func families(tier string) []vlib.Family {
 	var fams []vlib.Family
 	add := func(prefix string, m []int, level int) {
@@ -771,6 +822,7 @@ func families(tier string) []vlib.Family {
 	add("seg-", []int{1}, hostile.Full)
 	add("seg-", []int{2}, hostile.Full)
 	fams = append(fams, cycleFamily())
+	fams = append(fams, rawHeaderFamily())
 	fams = append(fams, oddFamily(thorough))
 	add("multi-", []int{1, 1}, hostile.Core)
 	add("multi-", []int{0, 1}, hostile.Core)
@@ -972,7 +1024,7 @@ func main() {
 	vlib.Main(vlib.Spec{
 		ID:    "C01",
 		Level: "exploration",
-		Rule:  "bounded-exhaustive enumeration of messages = segment configuration x words from a per-position boundary-complete alphabet (package hostile: every pointer kind with start or end of the referenced region on the word boundaries in [-1,L+1], field extrema, composite tags incl. zero-size x count -1, far/double-far to every segment id incl. out of range and every landing word, capability and unknown pointers, data words; four alphabet sizes full ~180, core ~130, mini ~75, micro ~35 words per position). Configurations: 1 segment of 0,1,2 words (full), 3 words (quick mini, thorough full), 4 words (thorough, micro); byte lengths 4/12/20; 2-3 segments (1-1, 0-1, 1-0 core; 1-2, 2-1, 1-1-1 micro/mini; thorough also 0-2, 1-0-1, 0-1-1 core and 2-2, 1-3, 1-1-2 micro); harness arenas whose Data fails for one id or that claim 0 / n+1 / 2^32 segments; Z-shaped frames (every union discriminant x pointer word x target word) and Counter/HoldsText/Regression/PlaneBase-shaped frames for the typed consumers; all 1-2 word pointer-only cycles with the full default budget in isolated child processes; thorough: one 512 KiB+16 segment with size-extreme first words (2^19, 2^22, 2^29 element boundaries). Every message under bare Single/MultiSegment arenas, a harness Arena, Unmarshal, UnmarshalPacked(ref.Pack), NewDecoder, NewPackedDecoder and a buffer-reusing Decoder; messages that hand out at least one object additionally under T in {default,64,2^40} x D in {default,3} (full framing x limit product for <= 2 words, first framing only above). The walker applies the read-side API to everything reachable to depth 6: Root, struct accessors at first/last/beyond offsets, Ptr/HasPtr, every list wrapper Len/At(0)/At(Len-1)/String, Text/Data, and on the root object, its children and the first element of a root list Equal, Canonicalize, SetRoot deep copy into fresh Single/Multi messages, text.Marshal and pogs.Extract (Z on every root struct; PlaneBase/Regression/HoldsText/Counter on <= 2-word messages and the typed frames). Oracle: no panic, no fatal error, no hang, Len() >= 0, returned byte slices inside the supplied segment memory (segments carved cap==len from a canary slab). A message is non-trivial if the library handed out at least one non-null object for it.",
+		Rule:  "bounded-exhaustive enumeration of messages = segment configuration x words from a per-position boundary-complete alphabet (package hostile: every pointer kind with start or end of the referenced region on the word boundaries in [-1,L+1], field extrema, composite tags incl. zero-size x count -1, far/double-far to every segment id incl. out of range and every landing word, capability and unknown pointers, data words; four alphabet sizes full ~180, core ~130, mini ~75, micro ~35 words per position). Configurations: 1 segment of 0,1,2 words (full), 3 words (quick mini, thorough full), 4 words (thorough, micro); byte lengths 4/12/20; 2-3 segments (1-1, 0-1, 1-0 core; 1-2, 2-1, 1-1-1 micro/mini; thorough also 0-2, 1-0-1, 0-1-1 core and 2-2, 1-3, 1-1-2 micro); harness arenas whose Data fails for one id or that claim 0 / n+1 / 2^32 segments; Z-shaped frames (every union discriminant x pointer word x target word) and Counter/HoldsText/Regression/PlaneBase-shaped frames for the typed consumers; all 1-2 word pointer-only cycles with the full default budget in isolated child processes; thorough: one 512 KiB+16 segment with size-extreme first words (2^19, 2^22, 2^29 element boundaries). Every message under bare Single/MultiSegment arenas, a harness Arena, Unmarshal, UnmarshalPacked(ref.Pack), NewDecoder, NewPackedDecoder and a buffer-reusing Decoder; raw byte strings that are not frames at all (first header word in {0,1,2,3,511,512,2^31-1,2^32-2,2^32-1} x second word x cut lengths 0..24) through Unmarshal, UnmarshalPacked and both decoders; messages that hand out at least one object additionally under T in {default,64,2^40} x D in {default,3} (full framing x limit product for <= 2 words, first framing only above). The walker applies the read-side API to everything reachable to depth 6: Root, struct accessors at first/last/beyond offsets, Ptr/HasPtr, every list wrapper Len/At(0)/At(Len-1)/String, Text/Data, and on the root object, its children and the first element of a root list Equal, Canonicalize, SetRoot deep copy into fresh Single/Multi messages, text.Marshal and pogs.Extract (Z on every root struct; PlaneBase/Regression/HoldsText/Counter on <= 2-word messages and the typed frames). Oracle: no panic, no fatal error, no hang, Len() >= 0, returned byte slices inside the supplied segment memory (segments carved cap==len from a canary slab). A message is non-trivial if the library handed out at least one non-null object for it.",
 		Assumptions: []string{
 			"recursive consumers (Equal, SetRoot, Canonicalize, text, pogs) run with the traversal budget clamped to 4 KiB on messages that are cyclic, declare lists of more than 1024 elements, or whose unfolded pointer graph has >= 400 nodes (time/memory at the default 64 MiB budget is otherwise exponential in the depth limit); the unclamped default budget is exercised on the 1-2 word single-path cycles (family cycles-unclamped-isolated); the budget accounting itself is C02's subject",
 			"limit configurations other than the default are applied only to messages for which the default configuration hands out at least one object (every earlier failure precedes the budget and depth checks in segment.go readPtr)",
